@@ -144,3 +144,67 @@ func (c *Cluster) HostileStream(o string, b []byte, note string) *Step {
 	c.Finish(s, false)
 	return s
 }
+
+// StalledStream: a peer sends a well-formed join request (captured from a real
+// node's join) to o and then neither reads the answer nor closes: the handler
+// must give up at its stream timeout instead of blocking for as long as the
+// peer likes.
+func (c *Cluster) StalledStream(o, from string) *Step {
+	x, y := c.live(o), c.live(from)
+	if x == nil || y == nil || o == from {
+		return nil
+	}
+	// capture the request bytes of a real join
+	ln, err := net.Listen("tcp", "127.0.0.1:0")
+	if err != nil {
+		return nil
+	}
+	got := make(chan []byte, 1)
+	go func() {
+		conn, err := ln.Accept()
+		if err != nil {
+			got <- nil
+			return
+		}
+		defer conn.Close()
+		var req []byte
+		buf := make([]byte, 65536)
+		for {
+			_ = conn.SetReadDeadline(time.Now().Add(150 * time.Millisecond))
+			n, err := conn.Read(buf)
+			req = append(req, buf[:n]...)
+			if err != nil {
+				break
+			}
+		}
+		got <- req
+	}()
+	watchdog("JoinAddr(capture)", 15*time.Second, func() { _, _ = y.G.JoinAddr(ln.Addr().String()) })
+	req := <-got
+	ln.Close()
+	if len(req) == 0 {
+		return nil
+	}
+	s := &Step{Op: "Hostile", A: o, Note: "stream:stalled-join"}
+	s.Cmd = fmt.Sprintf(`["StalledStream",%q,%q]`, o, from)
+	client, server := net.Pipe()
+	release := make(chan struct{})
+	go func() {
+		_, _ = client.Write(req)
+		<-release // neither reads nor closes while the handler runs
+		client.Close()
+	}()
+	func() {
+		defer close(release)
+		watchdog("handleConn(stalled-join)", 3*time.Second, func() {
+			if err := x.G.HandleStream(server, 300*time.Millisecond); err != nil {
+				s.Err = err.Error()
+			}
+		})
+	}()
+	c.outbox = nil
+	x.Det.Drain()
+	y.Det.Drain()
+	c.Finish(s, false)
+	return s
+}
